@@ -870,6 +870,115 @@ Proof.
   split; [|split]; intros; split; rewrite ?events_seed_first, ?samples_seed_first; reflexivity.
 Qed.
 
+(* ------------------------------------------------------------------ a run does not depend on the state it starts in
+   Rel cur a b: same generators, same creation counter, same deques in the current slot (if any).  The discipline `lin`
+   (a fixed-date sample pops only from the slot whose deques the run itself created, or copied from such a slot) is what
+   makes the rows a previous pricing left in the process object irrelevant. *)
+Definition Rel (cur : option Z) (a b : state) : Prop :=
+  s_gen a = s_gen b /\ s_cid a = s_cid b /\ forall c, cur = Some c -> s_slot a c = s_slot b c.
+
+Lemma step_rel st1 st2 cur o : op_ok cur o = true -> Rel cur st1 st2 ->
+  snd (step st1 o) = snd (step st2 o) /\ Rel (next_cur cur o) (fst (step st1 o)) (fst (step st2 o)).
+Proof.
+  intros Hok (Hg & Hc & Hs). destruct st1 as [g1 c1 f1], st2 as [g2 c2 f2]. simpl in Hg, Hc, Hs. subst g2 c2.
+  destruct o as [s|slot n nb d|src dst|slot fixed lvl ds]; simpl in Hok; try discriminate.
+  - simpl. split; [reflexivity|]. repeat split; simpl; auto. intros c E. inversion E; subst. now rewrite !set_slot_same.
+  - simpl. split; [reflexivity|]. repeat split; simpl; auto. intros c E. destruct cur as [c0|]; [|discriminate].
+    destruct (c0 =? src) eqn:E1.
+    + inversion E; subst. apply Z.eqb_eq in E1. subst. rewrite !set_slot_same. apply Hs; auto.
+    + destruct (c0 =? dst) eqn:E2; [discriminate|]. inversion E; subst. apply Z.eqb_neq in E2.
+      rewrite !set_slot_other by auto. apply Hs; auto.
+  - destruct fixed.
+    + destruct cur as [c0|]; [|discriminate]. apply Z.eqb_eq in Hok. subst c0.
+      simpl. rewrite <- (Hs slot eq_refl).
+      destruct (pop (q_pois (f1 slot))) as [[e1 r1] qp]. destruct (draws_run g1 ds) as [[e2 r2] g'].
+      destruct (pop (q_brown (f1 slot))) as [[e3 r3] qb]. simpl. split; [reflexivity|].
+      repeat split; simpl; auto. intros c E. inversion E; subst. now rewrite !set_slot_same.
+    + simpl. destruct (draws_run g1 ds) as [[e2 r2] g']. simpl. split; [reflexivity|]. repeat split; simpl; auto.
+Qed.
+
+Lemma run_rel ops : forall st1 st2 cur, lin ops cur = true -> Rel cur st1 st2 ->
+  events ops st1 = events ops st2 /\ samples ops st1 = samples ops st2.
+Proof.
+  induction ops as [|o r IH]; intros st1 st2 cur Hl HR; [split; reflexivity|].
+  simpl in Hl. apply andb_prop in Hl. destruct Hl as [Hok Hl].
+  destruct (step_rel st1 st2 cur o Hok HR) as [E HR'].
+  destruct (IH _ _ _ Hl HR') as [E1 E2].
+  rewrite !events_cons, !samples_cons, E, E1, E2. split; reflexivity.
+Qed.
+
+(* a run that seeds first and then obeys the discipline: same events and samples from ANY two states -- any generator
+   states and any contents of the deques (same creation counter: the tracer numbers the deques from the start of the run) *)
+Theorem seeded_run_forgets_state : forall s body, sc body -> forall g1 g2 c f1 f2,
+  events (OSeed s :: body) (mkSt g1 c f1) = events (OSeed s :: body) (mkSt g2 c f2)
+  /\ samples (OSeed s :: body) (mkSt g1 c f1) = samples (OSeed s :: body) (mkSt g2 c f2).
+Proof.
+  intros s body Hsc g1 g2 c f1 f2. rewrite !events_cons, !samples_cons. simpl.
+  destruct (run_rel body (mkSt (mkGen s 0 0) c f1) (mkSt (mkGen s 0 0) c f2) None (Hsc None)) as [E1 E2].
+  { repeat split; auto. intros c0 E. discriminate. }
+  rewrite E1, E2. split; reflexivity.
+Qed.
+
+Theorem engines_forget_state : forall s t m g1 g2 c f1 f2,
+  (forall ss, events (std_ops (Some s) t m ss) (mkSt g1 c f1) = events (std_ops (Some s) t m ss) (mkSt g2 c f2)
+              /\ samples (std_ops (Some s) t m ss) (mkSt g1 c f1) = samples (std_ops (Some s) t m ss) (mkSt g2 c f2))
+  /\ (forall n0 lv, events (mlc_ops (Some s) t m n0 lv) (mkSt g1 c f1) = events (mlc_ops (Some s) t m n0 lv) (mkSt g2 c f2)
+              /\ samples (mlc_ops (Some s) t m n0 lv) (mkSt g1 c f1) = samples (mlc_ops (Some s) t m n0 lv) (mkSt g2 c f2))
+  /\ (forall n0 ps, events (mlp_ops (Some s) t m n0 ps) (mkSt g1 c f1) = events (mlp_ops (Some s) t m n0 ps) (mkSt g2 c f2)
+              /\ samples (mlp_ops (Some s) t m n0 ps) (mkSt g1 c f1) = samples (mlp_ops (Some s) t m n0 ps) (mkSt g2 c f2)).
+Proof.
+  intros. unfold std_ops, mlc_ops, mlp_ops. simpl seed_choice.
+  split; [|split]; intros; apply seeded_run_forgets_state.
+  - apply sc_std_body.
+  - apply sc_mlc_body.
+  - apply sc_mlp_body.
+Qed.
+
+(* the discipline is needed: an "engine" that samples in fixed-date mode without a pre_computation of its own pops
+   whatever rows were left behind, and its trace depends on them *)
+Theorem leftover_rows_matter_refuted :
+  exists s ops g c f1 f2, events (OSeed s :: ops) (mkSt g c f1) <> events (OSeed s :: ops) (mkSt g c f2).
+Proof.
+  exists 7, [OSample 0 true (-1) []], (mkGen (-1) 0 0), 1,
+         (fun _ => empty_proc), (fun _ => mkProc [((0, 0), [(false, 3, 5)])] [((0, 0), [(false, 3, 4)])]).
+  vm_compute. discriminate.
+Qed.
+
+(* adaptive run that obeys the discipline: an instruction violating it stops the run *)
+Fixpoint garun (fuel : nat) (D : list op -> list ev -> option op) (st : state) (oh : list op) (hist : list ev) (cur : option Z)
+  : list op * list ev * list sample :=
+  match fuel with
+  | O => (oh, hist, [])
+  | S f =>
+      match D oh hist with
+      | None => (oh, hist, [])
+      | Some o =>
+          if op_ok cur o then
+            let '(st', (e, s)) := step st o in
+            let '(ops, h, ss) := garun f D st' (oh ++ [o]) (hist ++ e) (next_cur cur o) in
+            (ops, h, s ++ ss)
+          else (oh, hist, [])
+      end
+  end.
+
+Lemma garun_rel fuel D : forall st1 st2 oh hist cur, Rel cur st1 st2 ->
+  garun fuel D st1 oh hist cur = garun fuel D st2 oh hist cur.
+Proof.
+  induction fuel as [|f IH]; intros st1 st2 oh hist cur HR; simpl; [reflexivity|].
+  destruct (D oh hist) as [o|]; [|reflexivity].
+  destruct (op_ok cur o) eqn:Hok; [|reflexivity].
+  destruct (step_rel st1 st2 cur o Hok HR) as [E HR'].
+  destruct (step st1 o) as [a [e1 s1]]. destruct (step st2 o) as [b [e2 s2]]. simpl in E, HR'. inversion E; subst.
+  now rewrite (IH a b _ _ _ HR').
+Qed.
+
+(* any engine that seeds first and then takes arbitrary decisions D within the discipline: nothing depends on the state
+   (generators, leftover deques) the run starts in *)
+Theorem seeded_adaptive_forgets_state : forall D fuel s c g1 g2 f1 f2,
+  garun fuel D (fst (step (mkSt g1 c f1) (OSeed s))) [OSeed s] [ESeed s] None
+  = garun fuel D (fst (step (mkSt g2 c f2) (OSeed s))) [OSeed s] [ESeed s] None.
+Proof. intros. apply garun_rel. simpl. repeat split; auto. intros c0 E. discriminate. Qed.
+
 (* ------------------------------------------------------------------ repeatability with derived schedules *)
 (* an adaptive run is the run of the instructions it chose *)
 Lemma arun_is_run fuel D : forall st oh hist,
@@ -895,26 +1004,47 @@ Lemma derive_samples_length val nxt n : forall fuel st slot fixed lvl,
   length (derive_samples val nxt n fuel st slot fixed lvl) = n.
 Proof. induction n as [|k IH]; intros; simpl; auto. Qed.
 
-(* standard engine, schedule DERIVED by the run from the values of the variates (val, nxt arbitrary):
-   with a seed, two runs from different ambient generator states derive the same schedule, hence have
-   the same events, the same positions and the same values in every sample *)
-Theorem std_seeded_repeatable_derived : forall val nxt fuel s t m n g1 g2,
-  let ss1 := std_derived val nxt fuel (Some s) t m n g1 in
-  let ss2 := std_derived val nxt fuel (Some s) t m n g2 in
+Lemma derive_samples_rel val nxt n : forall fuel st1 st2 slot fixed lvl cur,
+  Rel cur st1 st2 -> (fixed = true -> cur = Some slot) ->
+  derive_samples val nxt n fuel st1 slot fixed lvl = derive_samples val nxt n fuel st2 slot fixed lvl.
+Proof.
+  induction n as [|k IH]; intros fuel st1 st2 slot fixed lvl cur HR Hc; simpl; [reflexivity|].
+  assert (E : next_sched val nxt fuel st1 slot fixed = next_sched val nxt fuel st2 slot fixed).
+  { unfold next_sched. destruct HR as (Hg & _ & Hs). rewrite Hg. destruct fixed; [|reflexivity].
+    rewrite (Hs slot (Hc eq_refl)). reflexivity. }
+  rewrite E. f_equal.
+  assert (Hok : op_ok cur (OSample slot fixed lvl (next_sched val nxt fuel st2 slot fixed)) = true).
+  { simpl. destruct fixed; [|reflexivity]. rewrite (Hc eq_refl). apply Z.eqb_refl. }
+  destruct (step_rel st1 st2 cur _ Hok HR) as [_ HR']. simpl in HR'.
+  eapply IH; eauto.
+Qed.
+
+(* standard engine, schedule DERIVED by the run from the values of the variates (val, nxt arbitrary), started from two
+   ARBITRARY states of the process object (generators anywhere, deques holding whatever a previous pricing left; same
+   creation counter): with a seed both runs derive the same schedule, have the same events, positions and values *)
+Theorem std_seeded_repeatable_derived : forall val nxt fuel s t m n g1 g2 c f1 f2,
+  let st1 := mkSt g1 c f1 in let st2 := mkSt g2 c f2 in
+  let ss1 := std_derived_from val nxt fuel (Some s) t m n st1 in
+  let ss2 := std_derived_from val nxt fuel (Some s) t m n st2 in
   ss1 = ss2
   /\ len ss1 = Z.of_nat n
-  /\ events (std_ops (Some s) t m ss1) (init g1) = events (std_ops (Some s) t m ss2) (init g2)
-  /\ map (fun sm => map val (snd sm)) (samples (std_ops (Some s) t m ss1) (init g1))
-     = map (fun sm => map val (snd sm)) (samples (std_ops (Some s) t m ss2) (init g2)).
+  /\ events (std_ops (Some s) t m ss1) st1 = events (std_ops (Some s) t m ss2) st2
+  /\ map (fun sm => map val (snd sm)) (samples (std_ops (Some s) t m ss1) st1)
+     = map (fun sm => map val (snd sm)) (samples (std_ops (Some s) t m ss2) st2).
 Proof.
   intros. assert (E : ss1 = ss2).
-  { unfold ss1, ss2, std_derived. simpl seed_choice.
-    change (snd (run (OSeed s :: pre m 0 (Z.of_nat n)) (init g1))) with (final (OSeed s :: pre m 0 (Z.of_nat n)) (init g1)).
-    change (snd (run (OSeed s :: pre m 0 (Z.of_nat n)) (init g2))) with (final (OSeed s :: pre m 0 (Z.of_nat n)) (init g2)).
-    now rewrite !final_seed_first. }
+  { unfold ss1, ss2, std_derived_from. simpl seed_choice.
+    change (snd (run (OSeed s :: pre m 0 (Z.of_nat n)) st1)) with (final (OSeed s :: pre m 0 (Z.of_nat n)) st1).
+    change (snd (run (OSeed s :: pre m 0 (Z.of_nat n)) st2)) with (final (OSeed s :: pre m 0 (Z.of_nat n)) st2).
+    apply (derive_samples_rel val nxt n fuel _ _ 0 (m_fixed m) (-1) (if m_fixed m then Some 0 else None)).
+    - unfold st1, st2, pre. rewrite !final_cons. destruct (m_fixed m).
+      + rewrite !final_cons. unfold final. simpl. repeat split; auto. intros c0 E0. inversion E0; subst. simpl. now rewrite !set_slot_same.
+      + unfold final. simpl. repeat split; auto. intros c0 E0. discriminate.
+    - intros H. rewrite H. reflexivity. }
   split; [exact E|]. split.
-  - unfold ss1, std_derived, len. now rewrite derive_samples_length.
-  - rewrite <- E. unfold std_ops. simpl seed_choice. rewrite !events_seed_first, !samples_seed_first. split; reflexivity.
+  - unfold ss1, std_derived_from, len. now rewrite derive_samples_length.
+  - rewrite <- E. destruct (engines_forget_state s t m g1 g2 c f1 f2) as [H _]. destruct (H ss1) as [E1 E2].
+    unfold st1, st2. rewrite E1, E2. split; reflexivity.
 Qed.
 
 (* before the fix (rows drawn before the seed): the derived schedule itself depends on the ambient state *)
@@ -1034,6 +1164,88 @@ Theorem pool_jump_mode_disjoint_pids : forall g0 nb d n pids now chunks,
 Proof.
   intros. unfold pool_run_pids. apply pool_jump_mode_disjoint; [apply NoDup_seed_of; auto|].
   now rewrite map_length.
+Qed.
+
+(* the positions a pool consumes carry the seed ids of its workers *)
+Lemma pool_chunks_jump_sids nb d parent wseeds chunks : forall gens logs,
+  length gens = length wseeds ->
+  (forall w, (w < length wseeds)%nat -> g_sid (nth w gens (mkGen 0 0 0)) = nth w wseeds 0) ->
+  Forall (fun c : nat * list sched => (fst c < length wseeds)%nat) chunks ->
+  forall p, In p (flat_map snd (snd (pool_chunks (mkMode false nb d) parent gens logs chunks))) -> In (snd (fst p)) wseeds.
+Proof.
+  induction chunks as [|[w ss] r IH]; intros gens logs HL HS HF p Hp; simpl in Hp; [destruct Hp|].
+  inversion HF as [|? ? Hw HF']; subst. simpl in Hw.
+  unfold samples_ops in Hp. simpl in Hp.
+  set (g := nth w gens (mkGen 0 0 0)) in *.
+  set (st := mkSt g (s_cid parent) (s_slot parent)) in *.
+  pose proof (samples_free_fresh 0 (-1) ss st) as Hf. simpl in Hf. unfold consumed, samples, final in Hf.
+  destruct (run (map (fun d0 => OSample 0 false (-1) d0) ss) st) as [[es sm] stf] eqn:Er. simpl in Hf.
+  specialize (IH (set_nth gens w (s_gen stf)) (set_nth logs w (nth w logs [] ++ es))).
+  destruct (pool_chunks (mkMode false nb d) parent (set_nth gens w (s_gen stf)) (set_nth logs w (nth w logs [] ++ es)) r) as [logs' sms] eqn:Ep.
+  simpl in *. rewrite flat_map_app in Hp. apply in_app_or in Hp.
+  destruct Hf as (F1 & _ & _ & _ & F5). destruct Hp as [Hp|Hp].
+  - destruct p as [[py sd] i]. destruct (F5 _ _ _ Hp) as [Hsd _]. simpl. rewrite Hsd. unfold g. rewrite HS by exact Hw.
+    apply nth_In. exact Hw.
+  - apply IH; auto.
+    + rewrite length_set_nth. exact HL.
+    + intros w' Hw'. destruct (Nat.eq_dec w w') as [->|Hne].
+      * rewrite nth_set_nth_same by lia. rewrite F1. apply HS. exact Hw'.
+      * rewrite nth_set_nth_other by exact Hne. apply HS. exact Hw'.
+Qed.
+
+Lemma pool_run_pids_sids g0 nb d n pids now chunks :
+  Forall (fun c : nat * list sched => (fst c < length pids)%nat) chunks ->
+  forall p, In p (flat_map snd (snd (pool_run_pids g0 (mkMode false nb d) n pids now chunks))) ->
+  exists pid, In pid pids /\ snd (fst p) = seed_of pid now.
+Proof.
+  intros HF p Hp. unfold pool_run_pids, pool_run, pre in Hp. simpl in Hp.
+  pose proof (pool_chunks_jump_sids nb d (init g0) (map (fun q => seed_of q now) pids) chunks
+                (map (fun s => mkGen s 0 0) (map (fun q => seed_of q now) pids))
+                (map (fun s => [ESeed s]) (map (fun q => seed_of q now) pids))) as H.
+  destruct (pool_chunks (mkMode false nb d) (init g0) (map (fun s => mkGen s 0 0) (map (fun q => seed_of q now) pids))
+              (map (fun s => [ESeed s]) (map (fun q => seed_of q now) pids)) chunks) as [logs sms]. simpl in *.
+  assert (Hin : In (snd (fst p)) (map (fun q => seed_of q now) pids)).
+  { apply H; auto.
+    - now rewrite !map_length.
+    - intros w Hw. change (mkGen 0 0 0) with ((fun s => mkGen s 0 0) 0). rewrite map_nth. reflexivity.
+    - now rewrite map_length. }
+  apply in_map_iff in Hin. destruct Hin as [pid [E Hpid]]. eauto.
+Qed.
+
+Definition pool_ok (p : list Z * Z * list (nat * list sched)) : Prop :=
+  0 <= snd (fst p) < 2 ^ 32 /\ Forall (fun c : nat * list sched => (fst c < length (fst (fst p)))%nat) (snd p).
+
+Lemma pools_samples_keys g0 nb d pools : Forall pool_ok pools ->
+  forall x, In x (flat_map snd (pools_samples g0 (mkMode false nb d) pools)) ->
+  exists pid now, In (pid, now) (pools_keys pools) /\ 0 <= now < 2 ^ 32 /\ snd (fst x) = seed_of pid now.
+Proof.
+  induction pools as [|[[pids now] chunks] r IH]; intros HF x Hx; simpl in Hx; [destruct Hx|].
+  inversion HF as [|? ? [Hn Hc] HF']; subst. simpl in Hn, Hc.
+  unfold pools_samples in Hx. simpl in Hx. rewrite flat_map_app in Hx. apply in_app_or in Hx. destruct Hx as [Hx|Hx].
+  - destruct (pool_run_pids_sids g0 nb d 0 pids now chunks Hc x Hx) as [pid [Hp E]].
+    exists pid, now. repeat split; auto; try lia. unfold pools_keys. simpl. apply in_or_app. left. apply in_map_iff. eauto.
+  - destruct (IH HF' x Hx) as (pid & nw & Hk & Hr & E). exists pid, nw. repeat split; auto; try lia.
+    unfold pools_keys. simpl. apply in_or_app. right. exact Hk.
+Qed.
+
+(* successive pools of one run in jump-time mode: if the (pid, clock) pairs of all workers of all pools are pairwise
+   different, all samples of all pools use disjoint positions *)
+Theorem pools_jump_mode_disjoint : forall g0 nb d pools,
+  NoDup (pools_keys pools) -> Forall pool_ok pools ->
+  NoDup (flat_map snd (pools_samples g0 (mkMode false nb d) pools)).
+Proof.
+  induction pools as [|[[pids now] chunks] r IH]; intros HN HF; [constructor|].
+  inversion HF as [|? ? [Hn Hc] HF']; subst. simpl in Hn, Hc.
+  unfold pools_keys in HN. simpl in HN.
+  unfold pools_samples. simpl. rewrite flat_map_app. apply NoDup_app_intro.
+  - apply pool_jump_mode_disjoint_pids; auto.
+    apply NoDup_app_l in HN. eapply NoDup_map_inv; eauto.
+  - apply IH; auto. eapply NoDup_app_r; eauto.
+  - intros x H1 H2.
+    destruct (pool_run_pids_sids g0 nb d 0 pids now chunks Hc x H1) as [pid [Hp E1]].
+    destruct (pools_samples_keys g0 nb d r HF' x H2) as (pid' & now' & Hk & Hr & E2).
+    rewrite E1 in E2. apply seed_of_inj2 in E2; auto. destruct E2 as [-> ->].
+    eapply NoDup_app_disj; [exact HN| |exact Hk]. apply in_map_iff. eauto.
 Qed.
 
 (* before: the product pid*now is reduced mod 123456789: two processes get the same seed exactly when
